@@ -207,7 +207,11 @@ def replay(rep):
         x = vlib.unhexv(r['x'])
         return not check_property(x, r['order'], r.get('tag', 'replay'), r.get('allow', True))
     if r.get('function') == 'pyule':
-        return not check_pyule(vlib.unhexv(r['x']), r['order'], r.get('tag', 'replay'))
+        x = vlib.unhexv(r['x'])
+        try:
+            return not check_pyule(np.real(x) if r.get('real') else x, r['order'], r.get('tag', 'replay'))
+        except Exception:
+            return False
     return True
 
 
@@ -421,6 +425,24 @@ def run(ctx):
             except Exception as e:
                 ctx.violation('no_exception/pyule/' + tag, 'pyule raised %r' % (e,), {'function': 'pyule', 'x': vlib.hexv(x), 'order': min(p, 12), 'tag': tag})
             ctx.count('search/pyule'); ctx.case(('search-pyule', x.tobytes(), p), nontrivial=(p >= 2))
+
+    # ---------------- EXHAUSTIVE over short records of small integers: the class exposes what the function returns at EVERY such record
+    # (coefficients that are exactly 0, 1 or -1 occur here and essentially never in random floating-point data)
+    import itertools
+    Nx = ctx.q(6, 7); nrec = 0
+    for rec in itertools.product((-2, -1, 0, 1, 2), repeat=Nx):
+        if not any(rec) or rec[0] < 0:            # (x and -x give the same model: half of the records)
+            continue
+        x = np.array(rec, dtype=float); nrec += 1
+        for p in (1, 2, 3):
+            try:
+                bad = check_pyule(x, p, 'real/exhaustive')
+            except Exception as e:
+                bad = [('no_exception/pyule/real/exhaustive', 'pyule raised %r' % (e,))]
+            for key, what in bad:
+                ctx.violation(key, what, {'function': 'pyule', 'x': vlib.hexv(x), 'order': p, 'tag': 'real/exhaustive', 'real': True})
+    ctx.count('search/pyule/exhaustive-small-integer-records', nrec)
+    ctx.case(('pyule-exhaustive', Nx), nontrivial=True, sample={'function': 'pyule vs aryule', 'records': 'all of {-2..2}^%d with a non-negative first sample' % Nx, 'orders': [1, 2, 3]})
 
     # ---------------- results depend on the VALUES given only: call protocol (repeat, aliasing, buffer reuse, memory layout, integer / single-precision dtypes)
     from props import _purity
